@@ -667,5 +667,18 @@ func genC05(cw *caseWriter, seed uint64, tier string) {
 			}
 			emitTwice(cw, z.name, ti, to, []byte("{"+strings.Join(parts, ",")+"}"))
 		}
+		if z.name != "UTC" {
+			continue
+		}
+		// lines that GROW on the way out (six-byte escapes of <, > and &; null columns added; base64) past the sizes a
+		// reader might stop at (4 KiB, 64 KiB, 1 MiB): what was written is still read back and written again
+		cols := []colDesc{{name: "id", format: "numeric", ty: "none"}, {name: "html", format: "string", ty: "none"}, {name: "b", format: "binary", ty: "none"}, {name: "late", format: "string", ty: "none"}}
+		for _, reps := range []int{100, 700, 9000, 12000, 150000} {
+			if reps > 12000 && tier != "thorough" {
+				continue
+			}
+			emitTwice(cw, z.name, cols, cols, []byte(`{"id":1,"html":"`+strings.Repeat("<br>", reps)+`"}`))
+			emitTwice(cw, z.name, []colDesc{{name: "id", format: "numeric", ty: "none"}, {name: "html", format: "auto", ty: "none"}}, cols, []byte(`{"id":2,"html":"`+strings.Repeat("&", reps*4)+`"}`))
+		}
 	}
 }
